@@ -58,14 +58,14 @@ Let Hwidths : forallb (fun x => 0 <=? wwidth x) (wires nl) = true := proj1 Hpart
 
 Lemma net_ok_of n : In n (nets nl) -> cp_net_ok nl n = true.
 Proof.
-  intros Hin. unfold cp_pass_ok in Hok. apply andb_true_iff in Hok. destruct Hok as [H _].
-  rewrite forallb_forall in H. apply H. assumption.
+  intros Hin. unfold cp_pass_ok in Hok. cbv zeta in Hok. apply andb_true_iff in Hok. destruct Hok as [H _].
+  rewrite forallb_forall in H. exact (H n Hin).
 Qed.
 
 Lemma base_ok_of w : In w (rdy0 nl) -> cp_base_ok nl w = true.
 Proof.
-  intros Hin. unfold cp_pass_ok in Hok. apply andb_true_iff in Hok. destruct Hok as [_ H].
-  rewrite forallb_forall in H. apply H. assumption.
+  intros Hin. unfold cp_pass_ok in Hok. cbv zeta in Hok. apply andb_true_iff in Hok. destruct Hok as [_ H].
+  rewrite forallb_forall in H. exact (H w Hin).
 Qed.
 
 Lemma Hnets : nets nl' = flat_map (cp_tr nl) (nets nl).
@@ -76,7 +76,7 @@ Proof. reflexivity. Qed.
 Lemma keep_dest_facts d : cp_keep_dest nl d = true ->
   rho d = d /\ ~ In d K /\ width_of nl' d = width_of nl d.
 Proof.
-  unfold cp_keep_dest. intros H. split_andb. split; [assumption|]. split; [|assumption].
+  unfold cp_keep_dest, cp_keep_dest_g. intros H. split_andb. split; [assumption|]. split; [|assumption].
   intro Hc. apply mem_in_In in Hc.
   match goal with H : negb _ = true |- _ => rewrite Hc in H; discriminate end.
 Qed.
@@ -86,7 +86,7 @@ Lemma alias_const_facts st' ins v' d k c :
   (forall k0, In k0 K -> v' k0 = base_val nl' dflt st' ins k0) ->
   rho d = k /\ In k K /\ (declared nl' k = true -> v' k = c).
 Proof.
-  unfold cp_alias_const. intros H HK. split_andb. split; [assumption|].
+  unfold cp_alias_const, cp_alias_const_g. intros H HK. split_andb. split; [assumption|].
   assert (Hin : In k K) by (apply mem_in_In; assumption).
   split; [assumption|]. intros Hd.
   match goal with H : (if declared _ _ then _ else _) = true |- _ => rewrite Hd in H;
@@ -105,7 +105,7 @@ Qed.
 Lemma sound_pre_facts n : cp_sound_pre nl n = true ->
   width_of nl (ndest n) <= width_of nl (arg n 0) /\ binary_same_width nl n.
 Proof.
-  unfold cp_sound_pre, binary_same_width. intros H. apply andb_true_iff in H. destruct H as [H1 H2].
+  unfold cp_sound_pre, cp_sound_pre_g, binary_same_width. intros H. apply andb_true_iff in H. destruct H as [H1 H2].
   split; [apply Z.leb_le; assumption|].
   destruct (nargs n) as [|a [|b [|c r]]]; auto. apply Z.eqb_eq. assumption.
 Qed.
@@ -124,8 +124,9 @@ Lemma cp_Hstep : forall pre n post, nets nl = pre ++ n :: post -> is_comb (nop n
 Proof.
   intros pre n post Hsplit Hc rdy st st' ins v v' Hst HI Hargs Hd Har.
   assert (Hin : In n (nets nl)) by (rewrite Hsplit; apply in_or_app; right; left; reflexivity).
-  pose proof (net_ok_of n Hin) as Hn. unfold cp_net_ok in Hn. rewrite Hc in Hn.
-  unfold cp_comb_ok in Hn.
+  pose proof (net_ok_of n Hin) as Hn. unfold cp_net_ok, cp_net_ok_g in Hn. rewrite Hc in Hn.
+  fold (cp_comb_ok nl n) in Hn. unfold cp_comb_ok, cp_comb_ok_g in Hn.
+  fold (cp_keep_dest nl) (cp_sound_pre nl) (cp_alias_const nl) in Hn.
   pose proof (width_nonneg nl Hwidths (ndest n)) as Hwd0.
   set (x := exec_spec nl st v n (ndest n)).
   exists x. split; [apply exec_upd_form; assumption|].
@@ -232,8 +233,9 @@ Lemma cp_Hreg : forall n, In n (nets nl) -> nop n = OpReg ->
         /\ cp_folded nl (ndest n) = false /\ arg n'' 0 = rho (arg n 0)
         /\ width_of nl' (ndest n) = width_of nl (ndest n) /\ live nl' rho (arg n 0) = true).
 Proof.
-  intros n Hin Eop. pose proof (net_ok_of n Hin) as Hn. unfold cp_net_ok in Hn.
-  rewrite Eop in Hn. cbn [is_comb] in Hn. unfold cp_reg_ok in Hn.
+  intros n Hin Eop. pose proof (net_ok_of n Hin) as Hn. unfold cp_net_ok, cp_net_ok_g in Hn.
+  rewrite Eop in Hn. cbn [is_comb] in Hn. unfold cp_reg_ok_g in Hn.
+  fold (cp_alias_const nl) in Hn.
   unfold cp_tr, cp_res, cp_apply.
   destruct (cp_decide nl n) as [|c|w|w] eqn:Edec; try discriminate Hn.
   - right. split_andb. exists (map_args rho n). cbn [fst snd map].
@@ -256,8 +258,8 @@ Lemma cp_Hwr : forall n m, In n (nets nl) -> nop n = OpMemWr m ->
   exists n'', cp_tr nl n = [n''] /\ nop n'' = OpMemWr m
     /\ forall i, (i < 3)%nat -> arg n'' i = rho (arg n i) /\ live nl' rho (arg n i) = true.
 Proof.
-  intros n m Hin Eop. pose proof (net_ok_of n Hin) as Hn. unfold cp_net_ok in Hn.
-  rewrite Eop in Hn. cbn [is_comb] in Hn. unfold cp_wr_ok in Hn.
+  intros n m Hin Eop. pose proof (net_ok_of n Hin) as Hn. unfold cp_net_ok, cp_net_ok_g in Hn.
+  rewrite Eop in Hn. cbn [is_comb] in Hn. unfold cp_wr_ok_g in Hn.
   unfold cp_tr, cp_res, cp_apply.
   destruct (cp_decide nl n) eqn:Edec; try discriminate Hn.
   exists (map_args rho n). cbn [fst snd map]. split; [reflexivity|]. split; [exact Eop|].
@@ -276,7 +278,7 @@ Lemma cp_Hbase : forall st st' ins, st_rel (cp_folded nl) (cp_cst nl) st st' ->
   /\ In (rho w) (K ++ rdy0 nl).
 Proof.
   intros st st' ins [S1 [S2 S3]] w Hw. pose proof (base_ok_of w Hw) as Hb.
-  unfold cp_base_ok in Hb.
+  unfold cp_base_ok, cp_base_ok_g in Hb.
   destruct (cp_folded nl w) eqn:Ef.
   - (* a folded register: represented by its constant *)
     pose proof Ef as Ef'. unfold cp_folded in Ef'. apply existsb_exists in Ef'.
@@ -285,11 +287,11 @@ Proof.
     unfold cp_fold_net in Hfn.
     destruct (nop n) eqn:Eop; try discriminate Hfn.
     destruct (cp_decide nl n) eqn:Edec; try discriminate Hfn.
-    pose proof (net_ok_of n Hin) as Hok'. unfold cp_net_ok in Hok'. rewrite Eop in Hok'.
-    cbn [is_comb] in Hok'. unfold cp_reg_ok in Hok'. rewrite Edec in Hok'. fold nl' rho K in Hok'.
+    pose proof (net_ok_of n Hin) as Hok'. unfold cp_net_ok, cp_net_ok_g in Hok'. rewrite Eop in Hok'.
+    cbn [is_comb] in Hok'. unfold cp_reg_ok_g in Hok'. rewrite Edec in Hok'. fold nl' rho K in Hok'.
     split_andb.
-    match goal with H : cp_alias_const _ _ _ _ = true |- _ =>
-      unfold cp_alias_const in H end.
+    match goal with H : cp_alias_const_g _ _ _ _ _ _ = true |- _ =>
+      unfold cp_alias_const_g in H end.
     split_andb.
     assert (Hrd : rho (ndest n) = cp_kid nl n) by assumption.
     split.
